@@ -401,6 +401,92 @@ fn concurrency_world() -> Arc<World> {
     Arc::new(World::build(spec).expect("W-conc"))
 }
 
+fn drivers_for(tier: Tier, dict: &Dict) -> Vec<(Driver, Vec<usize>)> {
+    let t = |m: Mode, v: &[&str]| Job::Tokenize { mode: m, texts: v.iter().map(|s| s.to_string()).collect() };
+    match tier {
+        Tier::Quick => vec![
+            (Driver { label: "2 threads x 2 analyses".into(), dict: dict.clone(), jobs: vec![t(Mode::A, &["東京都二千円", "カタア"]), t(Mode::C, &["1,000㍿", "東京府xag-2f"])] }, vec![0, 1]),
+            (Driver { label: "3 threads x 1 analysis".into(), dict: dict.clone(), jobs: vec![t(Mode::B, &["三百xyz"]), t(Mode::C, &["すだちア"]), Job::Sentences { text: "あ。な。な。い".into() }] }, vec![0, 1]),
+            (Driver { label: "2 threads x 1 short analysis".into(), dict: dict.clone(), jobs: vec![t(Mode::A, &["二千xyz"]), t(Mode::C, &["1,0だ"])] }, vec![0, 1, 2]),
+        ],
+        Tier::Thorough => vec![
+            (Driver { label: "2 threads x 2 analyses".into(), dict: dict.clone(), jobs: vec![t(Mode::A, &["東京都に行く二千三百円", "カタカタア(あ)"]), t(Mode::C, &["1,000円㍿東京府", "すだちxag-2f"])] }, vec![0, 1, 2]),
+            (Driver { label: "3 threads x 1 analysis".into(), dict: dict.clone(), jobs: vec![t(Mode::B, &["二千三百xyz"]), t(Mode::C, &["すだちアイ"]), Job::Sentences { text: "あ。な。な。い！と。".into() }] }, vec![0, 1, 2]),
+            (Driver { label: "2 threads, same text".into(), dict: dict.clone(), jobs: vec![t(Mode::C, &["東京都(とうきょうと)に1,234円xy"]), t(Mode::C, &["東京都(とうきょうと)に1,234円xy"])] }, vec![0, 1, 2]),
+        ],
+    }
+}
+
+/// The same thread bodies, free-running (no scheduler): meant to be executed by a binary built
+/// with ThreadSanitizer.  A monitor, not an enumeration.
+pub fn free_run() -> i32 {
+    let world = concurrency_world();
+    let dict = world.dict.clone();
+    let mut runs = 0u64;
+    for (d, _) in drivers_for(Tier::Thorough, &dict) {
+        let expected: Vec<Vec<String>> = d.jobs.iter().map(|j| run_job(&d.dict, j)).collect();
+        for _ in 0..30 {
+            let mut hs = Vec::new();
+            for j in d.jobs.iter().cloned() {
+                let dict = d.dict.clone();
+                hs.push(std::thread::spawn(move || run_job(&dict, &j)));
+            }
+            for (i, h) in hs.into_iter().enumerate() {
+                match h.join() {
+                    Ok(r) => {
+                        if r != expected[i] {
+                            println!("FREE-RUN-MISMATCH driver {:?} thread {}", d.label, i);
+                            return 1;
+                        }
+                    }
+                    Err(_) => {
+                        println!("FREE-RUN-PANIC driver {:?} thread {}", d.label, i);
+                        return 1;
+                    }
+                }
+            }
+            runs += 1;
+        }
+    }
+    println!("FREE-RUN-OK rounds={}", runs);
+    0
+}
+
+/// build the harness with ThreadSanitizer (nightly, -Zbuild-std) and run `vcheck c18-free` under it
+fn tsan_pass() -> Result<String, Result<String, String>> {
+    let root = crate::common::evidence::verif_root();
+    let target = root.join("target-tsan");
+    let out = std::process::Command::new("cargo")
+        .args(["+nightly", "build", "-Zbuild-std", "--target", "x86_64-unknown-linux-gnu", "--offline", "--profile", "verif"])
+        .current_dir(root.join("harness"))
+        .env("RUSTFLAGS", "-Zsanitizer=thread")
+        .env("CARGO_TARGET_DIR", &target)
+        .env("CARGO_NET_OFFLINE", "true")
+        .output()
+        .map_err(|e| Err(format!("cannot run cargo +nightly: {}", e)))?;
+    if !out.status.success() {
+        let err = String::from_utf8_lossy(&out.stderr);
+        return Err(Err(format!("ThreadSanitizer build failed: {}", err.lines().rev().take(5).collect::<Vec<_>>().join(" | "))));
+    }
+    let bin = target.join("x86_64-unknown-linux-gnu").join("verif").join("vcheck");
+    let run = std::process::Command::new(&bin)
+        .arg("c18-free")
+        .env("TSAN_OPTIONS", "halt_on_error=1 exitcode=66 second_deadlock_stack=1")
+        .env("VERIF_ROOT", &root)
+        .output()
+        .map_err(|e| Err(format!("cannot run {}: {}", bin.display(), e)))?;
+    let stdout = String::from_utf8_lossy(&run.stdout).to_string();
+    let stderr = String::from_utf8_lossy(&run.stderr).to_string();
+    if stderr.contains("ThreadSanitizer") || run.status.code() == Some(66) {
+        let first: Vec<&str> = stderr.lines().filter(|l| l.contains("ThreadSanitizer") || l.contains(" #0 ") || l.contains(" #1 ") || l.contains(" #2 ")).take(8).collect();
+        return Err(Ok(format!("ThreadSanitizer reported: {}", first.join(" | "))));
+    }
+    if !run.status.success() || !stdout.contains("FREE-RUN-OK") {
+        return Err(Ok(format!("free-running threads disagree with the sequential run: {} {}", stdout.trim(), stderr.lines().last().unwrap_or(""))));
+    }
+    Ok(stdout.trim().to_string())
+}
+
 pub fn main(tier: Tier, replay: Option<String>) -> i32 {
     let mut rep = Report::new("C18", "model_checking", tier);
     rep.rule = "every interleaving, at the granularity of the sched_point hooks compiled into sudachi, of 2 threads x 2 analyses and 3 threads x 1 analysis (one of them sentence splitting with the dictionary checker) over one shared Arc<JapaneseDictionary> with every plugin type and two user dictionaries, with at most `bound` preemptions (iterated 0, 1, 2); per schedule every thread's morphemes (all fields) must equal its single-threaded result, the dictionary fingerprint (every connection cell, word parameter, word info, POS list) must be unchanged, no thread may panic or block outside the scheduler; non-trivial = the schedule contains at least one preemption".into();
@@ -416,19 +502,7 @@ pub fn main(tier: Tier, replay: Option<String>) -> i32 {
     assert_send_sync::<sudachi::dic::dictionary::JapaneseDictionary>();
     let words: Vec<u32> = world.all_rows().iter().map(|(d, i, _)| WordId::new(*d as u8, *i as u32).as_raw()).collect();
     let fp0 = fingerprint(&dict, &words);
-    let t = |m: Mode, v: &[&str]| Job::Tokenize { mode: m, texts: v.iter().map(|s| s.to_string()).collect() };
-    let drivers: Vec<(Driver, Vec<usize>)> = match tier {
-        Tier::Quick => vec![
-            (Driver { label: "2 threads x 2 analyses".into(), dict: dict.clone(), jobs: vec![t(Mode::A, &["東京都二千円", "カタア"]), t(Mode::C, &["1,000㍿", "東京府xag-2f"])] }, vec![0, 1]),
-            (Driver { label: "3 threads x 1 analysis".into(), dict: dict.clone(), jobs: vec![t(Mode::B, &["三百xyz"]), t(Mode::C, &["すだちア"]), Job::Sentences { text: "あ。な。な。い".into() }] }, vec![0, 1, 2]),
-            (Driver { label: "2 threads x 1 short analysis".into(), dict: dict.clone(), jobs: vec![t(Mode::A, &["二千xyz"]), t(Mode::C, &["1,0だ"])] }, vec![0, 1, 2]),
-        ],
-        Tier::Thorough => vec![
-            (Driver { label: "2 threads x 2 analyses".into(), dict: dict.clone(), jobs: vec![t(Mode::A, &["東京都に行く二千三百円", "カタカタア(あ)"]), t(Mode::C, &["1,000円㍿東京府", "すだちab"])] }, vec![0, 1, 2]),
-            (Driver { label: "3 threads x 1 analysis".into(), dict: dict.clone(), jobs: vec![t(Mode::B, &["二千三百ab"]), t(Mode::C, &["すだちアイ"]), Job::Sentences { text: "あ。な。な。い！と。".into() }] }, vec![0, 1, 2]),
-            (Driver { label: "2 threads, same text".into(), dict: dict.clone(), jobs: vec![t(Mode::C, &["東京都(とうきょうと)に1,234円"]), t(Mode::C, &["東京都(とうきょうと)に1,234円"])] }, vec![0, 1, 2]),
-        ],
-    };
+    let drivers = drivers_for(tier, &dict);
     if let Some(path) = replay {
         let txt = std::fs::read_to_string(&path).expect("replay file");
         let v: Value = serde_json::from_str(&txt).expect("json");
@@ -490,6 +564,22 @@ pub fn main(tier: Tier, replay: Option<String>) -> i32 {
         }
     }
     sudachi::verif::set_sched_hook(None);
+    if tier == Tier::Thorough && !rep.has_violation() {
+        // separate free-running pass of the same bodies under ThreadSanitizer: a monitor for
+        // unsynchronised accesses that do not straddle a hook; it is not an enumeration
+        match tsan_pass() {
+            Ok(msg) => {
+                rep.extra.insert("thread_sanitizer_pass".into(), json!({"result": "no report", "output": msg, "note": "monitor over free-running threads, not an enumeration"}));
+            }
+            Err(Ok(report)) => {
+                rep.violations.push(("ThreadSanitizer free-running pass".into(), json!({"driver": "free-run"}), vec![Failure::new("data-race-or-divergence-in-free-run", report)]));
+            }
+            Err(Err(machinery)) => {
+                rep.extra.insert("thread_sanitizer_pass".into(), json!({"result": "skipped", "reason": machinery}));
+                println!("NOTE: ThreadSanitizer pass skipped: {}", machinery);
+            }
+        }
+    }
     rep.extra.insert("explanation".into(), json!("states = complete schedules executed on the real code, transitions = scheduling decisions taken; every schedule is a real execution, so traces_validated_against_impl = schedules"));
     rep.finish()
 }
